@@ -211,6 +211,8 @@ if __name__ == '__main__':
 # directed time-travel corpus (run by C02, C03, C15 on top of the random histories): each takes
 # two small ints; both outcomes of every defeat condition are covered by the argument grid
 DIRECTED_TT = [
+    'empty !dd(int c) { int[] loc = [c, c]; !truth_is_defeat(c > 1); write(loc[0]); }\nint @inner(int c) { try { !dd(c); write("i"); } stop { write("I"); } return c + 1; }\n'
+    'empty @is_you(int a, int b) { int x = 7; try { !dd(a); write("1"); } stop { write("A"); } x = @inner(b); try { write(x); !dd(b); write("2"); } stop { write("B"); write(x); } x = @inner(a); try { !dd(a + b); write("3"); } stop { write("C"); write(x); } write(x); }\n',
     'int twice(int v) { return v + v; }\nint @r(int c, int y) { return c ?? (y + 1); }\nempty @is_you(int a, int b) { int r = a ?? (b + 1); write(r); write(\' \'); write(a ?? (b + 1)); write(\' \'); write(twice(a) ?? (b + 1)); write(\' \'); write(a ?? b); write(\' \'); bool t = (a > 1) ?? (b > a); write(t); byte c = (a is byte) ?? ((b + 1) is byte); write(c is int); write(@r(a, b)); if ((a > 0) ?? (b + 1 > 2)) { write("y"); } }\n',
     'empty !inner(int c) { !truth_is_defeat(c > 1); write("i"); }\nint !val(int c) { !inner(c); return c + 1; }\nint @pick(int c) { try { return !val(c); } stop { write("s"); } return 0 - 1; }\nint @pick2(int c) { for (int i = 0; i < 2; i += 1) { try { if (i == 1) { return !val(c) + i; } write(i); } stop { write("S"); } } return 7; }\nempty @is_you(int a, int b) { write(@pick(a)); write(@pick(b)); write(@pick2(a)); write(@pick2(b)); }\n',
     'int g = 13;\nbool gb = true;\nint f(int v) { g += v; return g; }\nempty @is_you(int a, int b) { g = (g + a) ?? b; write(g); write(\' \'); g = f(a) ?? (g + b); write(g); write(\' \'); gb = (g > 14) ?? gb; write(gb); g = (g * 2) ?? (g + g); write(g); }\n',
